@@ -1,6 +1,6 @@
 (* C41: the macro recursion search is a sound and complete reachability test. *)
 From Coq Require Import ZArith List Bool Arith Lia.
-From OP Require Import lib.Obs model.C41.
+From OP Require Import lib.Obs model.MacroSearch.
 Import ListNotations.
 
 (* some chain of calls starting in this body leads to a call of target *)
